@@ -188,6 +188,7 @@ def run_batch(ck, exe, lines, first=None, env=None):
     out = [None] * len(lines)
     start = 0
     restarts = 0
+    retries = 0
     while start < len(lines):
         text = (first + "\n" if first else "") + "".join(l + "\n" for l in lines[start:])
         p = ck.run([exe], input=text, timeout=1500, env=env)
@@ -206,7 +207,14 @@ def run_batch(ck, exe, lines, first=None, env=None):
             out[start + k] = "HANG"
         else:
             rep = [l for l in p.stderr.splitlines() if "ERROR" in l or "SUMMARY" in l or "runtime error" in l]
+            if not rep and p.returncode >= 0 and retries < 3:
+                # the process ended without a sanitizer report or a signal (start failure on an overloaded
+                # machine): not a verdict about the request, run it again
+                retries += 1
+                start += k
+                continue
             out[start + k] = "CRASH rc=%d %s" % (p.returncode, " | ".join(rep)[:400])
+        retries = 0
         start += k + 1
         restarts += 1
         if restarts > 60:
@@ -236,7 +244,7 @@ class Session:
             self.p.stdin.flush()
             self.p.stdout.readline()
 
-    def ask(self, line):
+    def ask(self, line, _retry=0):
         if self.p is None or self.p.poll() is not None:
             self.start()
         try:
@@ -264,6 +272,8 @@ class Session:
         self.restarts += 1
         if out.strip() == "HANG":
             return "HANG"
+        if not rep and rc is not None and rc >= 0 and _retry < 3:
+            return self.ask(line, _retry + 1)     # start failure, not a verdict about the request
         return "CRASH rc=%s %s" % (rc, " | ".join(rep)[:400])
 
     def close(self):
@@ -317,7 +327,13 @@ def run(ck):
             ck.violation("leanchecker:" + mod, "leanchecker rejects %s" % mod, {"log": log}, False)
     env = {"ASAN_OPTIONS": "detect_leaks=0:symbolize=0"}
 
-    consts = run_batch(ck, harness, ["C"], env=env)[0].split()
+    consts = []
+    for _ in range(4):      # the first start of the sanitised harness occasionally fails on an overloaded machine
+        consts = (run_batch(ck, harness, ["C"], env=env)[0] or "").split()
+        if len(consts) == 3 and consts[0] == "ok":
+            break
+    if len(consts) != 3 or consts[0] != "ok":
+        raise vlib.BuildError("the C47 harness does not run", " ".join(consts)[:2000])
     cpp, inc = unhx(consts[1]), unhx(consts[2])
     kline = "K %s %s" % (hx(cpp), hx(inc))
     g = Gen(rng, cpp, inc)
